@@ -566,6 +566,39 @@ theorem addText_inv (m : WS) (mt wt : Tag) (cs : List Ch) (b b' : WB) (hi : b.In
 theorem new_inv (w : Nat) (pad ov : Bool) : ({ width := w, padBlocks := pad, overflow := ov } : WB).Inv :=
   ⟨rfl, rfl, Nat.zero_le _, fun _ l hl => by simp at hl, fun hp => by simp at hp⟩
 
+/-! the final rescue of markers left alone on the current line -/
+
+theorem flushLine_line_noContent (b : WB) : b.flushLine.line.noContent = true := by
+  unfold WB.flushLine
+  split
+  · assumption
+  · rfl
+
+theorem dropLast_append_of_getLast? {α : Type} : ∀ (l : List α) (a : α), l.getLast? = some a → l.dropLast ++ [a] = l := by
+  intro l
+  induction l with
+  | nil => intro a h; simp at h
+  | cons x xs ih =>
+    intro a h
+    cases xs with
+    | nil => simp at h; subst h; rfl
+    | cons y ys =>
+      have h' : (y :: ys).getLast? = some a := by simpa [List.getLast?_cons_cons] using h
+      have := ih a h'
+      simp only [List.dropLast_cons₂, List.cons_append]
+      rw [this]
+
+theorem rescueMarks_mem (text : List TLine) (line : TLine) (l : TLine) (h : l ∈ rescueMarks text line) :
+    l ∈ text ∨ ∃ last, last ∈ text ∧ l = last ++ line := by
+  unfold rescueMarks at h
+  split at h
+  · rename_i last hl
+    simp only [List.mem_append, List.mem_singleton] at h
+    rcases h with h | h
+    · exact Or.inl (List.dropLast_subset _ h)
+    · exact Or.inr ⟨last, List.mem_of_getLast? hl, h⟩
+  · exact Or.inl h
+
 /-- C02 on the wrap layer (every white-space mode, tabs, padding, any sequence of `add_text` calls is covered by
     `addTextGo_inv`): when overflow is not allowed, every line a block emits fits its width. -/
 theorem finish_lines_fit (b : WB) (ls : List TLine) (hi : b.Inv) (ho : b.overflow = false)
@@ -578,9 +611,15 @@ theorem finish_lines_fit (b : WB) (ls : List TLine) (hi : b.Inv) (ho : b.overflo
     injection h with h; subst h
     obtain ⟨i1, s1⟩ := flushWord_inv b b1 .normal hi hf
     obtain ⟨i2, s2, _⟩ := flushLine_inv b1 i1
+    have hfit : ∀ l ∈ b1.flushLine.text, lw l ≤ b.width := by
+      intro l hl
+      have := i2.text_fit (by rw [s2.overflow, s1.overflow]; exact ho) l hl
+      rw [s2.width, s1.width] at this
+      exact this
     intro l hl
-    have := i2.text_fit (by rw [s2.overflow, s1.overflow]; exact ho) l hl
-    rw [s2.width, s1.width] at this
-    exact this
+    rcases rescueMarks_mem _ _ l hl with h1 | ⟨last, h1, rfl⟩
+    · exact hfit l h1
+    · rw [lw_append, noContent_lw _ (flushLine_line_noContent b1)]
+      exact hfit last h1
 
 end H2T
